@@ -826,6 +826,34 @@ impl<'a> Rewriter<'a> {
         true
     }
 
+    /// R29: statement-position `X.get_or_insert_with(|| E);` / `X.get_or_insert(E);` (the returned reference is discarded): X keeps a value it
+    /// already has, otherwise it becomes `Some(E)` - `{ let goi__ = &mut X; if goi__.is_none() { *goi__ = Some(E); } }` (X is evaluated once)
+    fn try_get_or_insert_stmt(&mut self, e: &Expr, stmt_span: Span) -> bool {
+        let m = match e { Expr::MethodCall(m) if (m.method == "get_or_insert_with" || m.method == "get_or_insert") && m.args.len() == 1 => m, _ => return false };
+        let (ss, se) = self.src.range(stmt_span);
+        let (rs, re) = self.src.range(m.receiver.span());
+        if m.method == "get_or_insert_with" {
+            let c = match &m.args[0] { Expr::Closure(c) if c.inputs.is_empty() => c, _ => return false };
+            let (bs, be) = self.src.range(c.body.span());
+            self.edit(ss, rs, "{ let goi__ = &mut ".to_string(), 0);
+            self.edit(re, bs, "; if goi__.is_none() { *goi__ = Some(".to_string(), 0);
+            self.edit(be, se, "); } }".to_string(), 0);
+            let (cs, _) = self.src.range(c.span());
+            self.consumed_closures.push(cs);
+            self.visit_expr(&m.receiver);
+            self.visit_expr(&c.body);
+        } else {
+            let (as_, ae) = self.src.range(m.args[0].span());
+            let arg = self.src.text[as_..ae].to_string();
+            if arg.contains(".lock(") || arg.contains("||") { return false; }
+            self.edit(ss, rs, format!("{{ let goi_v__ = {}; let goi__ = &mut ", norm_ws(&arg)), 0);
+            self.edit(re, se, "; if goi__.is_none() { *goi__ = Some(goi_v__); } }".to_string(), 0);
+            self.visit_expr(&m.receiver);
+        }
+        self.notes.push(format!("R29 `{}` statement at {}:{} rewritten as a conditional assignment", m.method, self.src.rel, self.src.line_of(ss)));
+        true
+    }
+
     fn process_one_stmt(&mut self, block: &syn::Block, i: usize, n: usize, st: &Stmt) {
         {
             let (ss, se) = self.src.range(st.span());
@@ -1009,6 +1037,9 @@ impl<'a, 'ast> Visit<'ast> for Rewriter<'a> {
                     return;
                 }
                 if self.try_foreach_stmt(e, st.span()) {
+                    return;
+                }
+                if self.try_get_or_insert_stmt(e, st.span()) {
                     return;
                 }
             }
